@@ -106,3 +106,9 @@ Thm/C10/Errors.vos Thm/C10/Errors.vok Thm/C10/Errors.required_vos: Thm/C10/Error
 Props/C10.vo Props/C10.glob Props/C10.v.beautified Props/C10.required_vo: Props/C10.v Core/Base.vo Core/Prog.vo Py/Sig.vo Sem/Interp.vo Sem/InterpFacts.vo Sem/Model.vo Gen/Validators.vo Gen/Decorators.vo Thm/C10/Errors.vo
 Props/C10.vio: Props/C10.v Core/Base.vio Core/Prog.vio Py/Sig.vio Sem/Interp.vio Sem/InterpFacts.vio Sem/Model.vio Gen/Validators.vio Gen/Decorators.vio Thm/C10/Errors.vio
 Props/C10.vos Props/C10.vok Props/C10.required_vos: Props/C10.v Core/Base.vos Core/Prog.vos Py/Sig.vos Sem/Interp.vos Sem/InterpFacts.vos Sem/Model.vos Gen/Validators.vos Gen/Decorators.vos Thm/C10/Errors.vos
+Thm/C06/Transparent.vo Thm/C06/Transparent.glob Thm/C06/Transparent.v.beautified Thm/C06/Transparent.required_vo: Thm/C06/Transparent.v Core/Base.vo Core/Prog.vo Py/Sig.vo Sem/Interp.vo Sem/InterpFacts.vo Sem/StmtFacts.vo Sem/Model.vo Gen/Validators.vo Gen/HasPatcher.vo Gen/Contracts.vo Thm/Common/Loops.vo Thm/Common/PatchFacts.vo Thm/C01/Gate.vo Thm/C02/Post.vo
+Thm/C06/Transparent.vio: Thm/C06/Transparent.v Core/Base.vio Core/Prog.vio Py/Sig.vio Sem/Interp.vio Sem/InterpFacts.vio Sem/StmtFacts.vio Sem/Model.vio Gen/Validators.vio Gen/HasPatcher.vio Gen/Contracts.vio Thm/Common/Loops.vio Thm/Common/PatchFacts.vio Thm/C01/Gate.vio Thm/C02/Post.vio
+Thm/C06/Transparent.vos Thm/C06/Transparent.vok Thm/C06/Transparent.required_vos: Thm/C06/Transparent.v Core/Base.vos Core/Prog.vos Py/Sig.vos Sem/Interp.vos Sem/InterpFacts.vos Sem/StmtFacts.vos Sem/Model.vos Gen/Validators.vos Gen/HasPatcher.vos Gen/Contracts.vos Thm/Common/Loops.vos Thm/Common/PatchFacts.vos Thm/C01/Gate.vos Thm/C02/Post.vos
+Props/C06.vo Props/C06.glob Props/C06.v.beautified Props/C06.required_vo: Props/C06.v Core/Base.vo Core/Prog.vo Py/Sig.vo Sem/Interp.vo Sem/InterpFacts.vo Sem/Model.vo Gen/Validators.vo Gen/HasPatcher.vo Gen/Contracts.vo Sem/Scenario.vo Sem/Show.vo Thm/Common/Loops.vo Thm/Common/PatchFacts.vo Thm/C01/Gate.vo Thm/C02/Post.vo Thm/C06/Transparent.vo
+Props/C06.vio: Props/C06.v Core/Base.vio Core/Prog.vio Py/Sig.vio Sem/Interp.vio Sem/InterpFacts.vio Sem/Model.vio Gen/Validators.vio Gen/HasPatcher.vio Gen/Contracts.vio Sem/Scenario.vio Sem/Show.vio Thm/Common/Loops.vio Thm/Common/PatchFacts.vio Thm/C01/Gate.vio Thm/C02/Post.vio Thm/C06/Transparent.vio
+Props/C06.vos Props/C06.vok Props/C06.required_vos: Props/C06.v Core/Base.vos Core/Prog.vos Py/Sig.vos Sem/Interp.vos Sem/InterpFacts.vos Sem/Model.vos Gen/Validators.vos Gen/HasPatcher.vos Gen/Contracts.vos Sem/Scenario.vos Sem/Show.vos Thm/Common/Loops.vos Thm/Common/PatchFacts.vos Thm/C01/Gate.vos Thm/C02/Post.vos Thm/C06/Transparent.vos
